@@ -51,8 +51,8 @@ APPL = {
     "getrandom": ["I"], "copy_file_range": ["ENOMEM"],
 }
 
-SCENARIOS = ["loop", "basic", "tcp", "tcp_big", "pipe", "pipe_big", "tcp_refused", "tcp_many", "connect_fail", "udp",
-             "fs_sync", "fs_async", "fs_event", "fs_poll", "spawn", "spawn_fail", "spawn_many", "signal",
+SCENARIOS = ["loop", "basic", "tcp", "tcp_big", "pipe", "pipe_big", "tcp_refused", "tcp_many", "tcp_shed", "connect_fail", "udp",
+             "fs_sync", "fs_async", "fs_event", "fs_poll", "spawn", "spawn_fail", "spawn_many", "signal", "signal_close",
              "dns", "os", "work", "pairs", "ipc", "sysinfo"]
 QUICK_SKIP_HEAVY = {"tcp_big", "pipe_big"}        # quick: sampled more thinly (hundreds of reads)
 NOT_MODELLED = ["uv_interface_addresses", "uv_cpu_info", "uv_getnameinfo", "uv_fs_* worker-side operations",
@@ -370,6 +370,9 @@ def monitor(scen, plan, kind, ref, out, resolver):
         if site in PERMITTED:
             return ("PERMITTED:" + site, "")
         return ("abort_at_" + site, "abort() in %s during %s after %s" % ("<-".join(fs[:3]), api, last))
+    if status == "SPIN":
+        sp = [t for t in events if t.startswith("SPIN:")]
+        return ("spin", "the run made more than 60000 allocation/system calls without finishing (%s): the loop spins" % (sp[0] if sp else "?"))
     if status != "EXIT0":
         top = ""
         fm = re.findall(r"#\d+ 0x[0-9a-f]+ in (\w+) (/repo/src/\S+)", dg)
@@ -383,7 +386,10 @@ def monitor(scen, plan, kind, ref, out, resolver):
             if "!r" in v or "!h" in v:
                 probs.append(("acct", "%s=%s: a failed call changed the request/handle counters" % (k, v)))
     for k in m:
-        if k.startswith("WATCHDOG") or k in ("CAP", "stall"):
+        if k == "CAP":
+            probs.append(("spin", "uv_run(UV_RUN_ONCE) returned 5000 times without any progress (%s callback(s) still outstanding): "
+                          "the loop busy-spins" % m[k][0]))
+        elif k.startswith("WATCHDOG") or k == "stall":
             probs.append(("no_completion", "%s=%s: the loop did not run to completion" % (k, m[k][0])))
     if "loop_init" in m and m["loop_init"][0] == "0":
         if m.get("alive", ["?"])[0] != "0" or m.get("reqs", ["?"])[0] != "0" or m.get("loop_close", ["?"])[0] != "0":
@@ -419,6 +425,11 @@ def monitor(scen, plan, kind, ref, out, resolver):
     for k, v, r in devs:
         if not ERRLIKE.match(v) and not errvals:       # after a reported error later values are consequences
             probs.append(("wrong_value", "%s=%s where the fault-free run has %s (not an error code)" % (k, v, r)))
+    if kind == "EINTR" and scen == "signal_close" and re.match(r"at:M\.write#", plan):
+        for k in ("info.signal_delivered", "info.signal_delivered2"):
+            if m.get(k) != ref.get(k):
+                probs.append(("eintr_not_transparent", "%s=%s where the fault-free run has %s: an interrupted write in the signal "
+                              "handler lost the signal" % (k, m.get(k), ref.get(k))))
     if kind == "EINTR":
         bad = [v for v in errvals if v != "EINTR"]
         if bad and not any(p[0] in ("acct",) for p in probs):
@@ -785,6 +796,44 @@ def main():
             continue
         for (pl, nm, kind, api) in single_plans(refpts[s], chk.rng, thorough, s in QUICK_SKIP_HEAVY):
             plans.append((s, pl, kind, api, nm))
+    # --- fault-sequence shapes beyond single faults ---------------------------------------------
+    repeat_of = {}
+    for s_ in refs:
+        occ = collections.defaultdict(list)
+        for cls, nm, idx, attr, api in refpts[s_]:
+            occ[(cls, nm)].append((idx, attr, api))
+        # (1) a full signal pipe: EAGAIN forced on the write() inside uv__signal_handler
+        if s_ == "signal_close":
+            g = [idx for idx, attr, api in occ[("M", "write")] if "g" in attr]
+            for idx in g:
+                plans.append((s_, "at:M.write#%d=EAGAIN!" % idx, "EAGAIN", "raise", "write"))
+            if len(g) > 1:
+                plans.append((s_, ";".join("at:M.write#%d=EAGAIN!" % i for i in g[:4]), "EAGAIN", "raise", "write"))
+        # (2) the process at its descriptor limit from one call on (EMFILE for as long as nothing is closed)
+        lim_names = ["accept4"] + (["socket", "open", "pipe2", "eventfd"] if (thorough or s_ in ("tcp_shed", "tcp_many", "pairs", "spawn", "fs_sync")) else [])
+        for nm in lim_names:
+            for idx, attr, api in occ[("M", nm)][:(3 if nm == "accept4" else 1)]:
+                if nm == "accept4" or api != "loop_init":
+                    plans.append((s_, "at:M.%s#%d=LIMIT" % (nm, idx), "EMFILE", api, nm))
+        # (3) the same site failing again after k successful calls
+        for nm, errs in (("accept4", ("EMFILE", "ENFILE")), ("socket", ("EMFILE",)), ("open", ("EMFILE",)),
+                         ("pipe2", ("EMFILE",)), ("eventfd", ("EMFILE",))):
+            o_ = [x for x in occ[("M", nm)] if x[2] != "loop_init"]
+            firsts = o_[:(3 if nm == "accept4" else 1)]
+            if nm != "accept4" and not (thorough or s_ in ("tcp_many", "fs_sync", "pairs", "udp", "basic")):
+                continue
+            for idx, attr, api in firsts:
+                for k in (1, 2, 3):
+                    j = idx + 1 + k
+                    if nm != "accept4" and j > o_[-1][0]:
+                        continue
+                    for e in errs:
+                        a1, a2 = "at:M.%s#%d=%s" % (nm, idx, e), "at:M.%s#%d=%s" % (nm, j, e)
+                        plans.append((s_, a1 + ";" + a2, "pair", api, nm))
+                        repeat_of[(s_, a1 + ";" + a2)] = (a1, a2)
+                        for single in (a1, a2):
+                            if not any(p_[0] == s_ and p_[1] == single for p_ in plans):
+                                plans.append((s_, single, e, api, nm))
     cpath = os.path.join(vf.VERIF, "corpus", "C16", "cases.txt")
     if os.path.exists(cpath):
         corp = []
@@ -867,6 +916,32 @@ def main():
         kk = classify_known(s, pl, key, text, o)
         fkey = kk or ("%s:%s" % (key, api))
         findings.setdefault(fkey, []).append((c, key, text, o))
+    # a fault repeated at the same site must be handled like each of its occurrences alone: no error value
+    # that neither single-fault run (nor the fault-free run) shows
+    by_case = {c_: o_ for c_, o_ in zip(cases, outs)}
+
+    def errvals_of(sc, out):
+        st_, ev_, _, _ = parse_out(out)
+        vals = set()
+        for k_, vs_ in ev_map(ev_).items():
+            for i_, v_ in enumerate(vs_):
+                v_ = v_.split("!")[0]
+                if ERRLIKE.match(v_) and v_ not in refs[sc].get(k_, []):
+                    vals.add((k_, v_))
+        return vals
+    for (sc, pl), (a1, a2) in repeat_of.items():
+        o_r, o_1, o_2 = by_case.get("%s %s" % (sc, pl)), by_case.get("%s %s" % (sc, a1)), by_case.get("%s %s" % (sc, a2))
+        if not (o_r and o_1 and o_2) or not (o_r.startswith("EXIT0") and o_1.startswith("EXIT0") and o_2.startswith("EXIT0")):
+            continue
+        if " fired=2 " not in o_r:
+            continue
+        new = errvals_of(sc, o_r) - errvals_of(sc, o_1) - errvals_of(sc, o_2)
+        stats["repeat_checked"] += 1
+        if new:
+            k_, v_ = sorted(new)[0]
+            findings.setdefault("repeat_handled_differently:%s" % pl.split("#")[0], []).append(
+                ("%s %s" % (sc, pl), "repeat", "the second failure at the same site is handled differently from the first: %s=%s appears, "
+                 "which neither failure alone (%s / %s) produces" % (k_, v_, a1, a2), o_r))
     for fkey, lst in findings.items():
         c, key, text, o = lst[0]
         stats["finding:" + fkey] = len(lst)
